@@ -12,7 +12,7 @@ from hyverif.oracles.gridgeom import Geom
 
 ID = "C07"
 SHARDS = {"quick": 8, "thorough": 16}
-BUDGET = {"quick": 45, "thorough": 300}
+BUDGET = {"quick": 300, "thorough": 1800}
 RULE = ("grids with nrows, ncols in {1, 2, 3, 5, 7, random <= 60}, cell size "
         "u x 10^k (k in -4..4), origins up to +-1e4 cell sizes; all cells of small "
         "grids, random cells of large ones; per cell 9+ interior points (to within "
